@@ -48,6 +48,17 @@ CHECKS = {
          "operation each, two shared names, preemption bound 2/1 (quick) or 3/2 (thorough); sqlite back-end only in the thorough tier.",
     technique="TLA+/PlusCal spec + TLC; deterministic schedule exploration of real threads; TLC linearizability search over recorded histories",
     ref="6/C15"),
+ "C09": dict(
+    category="model_checking",
+    text="Instances.tla (atomic design of single/session/percall) and InstancesImpl.tla (PlusCal of _getInstance with the lock, racing first "
+         "calls, falsy instances) model-checked by TLC; TLC walks the atomic model to enumerate open/call/close histories; a real daemon serves "
+         "generated classes of every instance shape (truthy, falsy via __len__/__bool__, all-equal __eq__/__hash__) and creator kind (none, ok, "
+         "fails first, wrong type) over the in-memory transport; racing first calls of 2-3 connections run on the real thread-pool server under "
+         "the deterministic scheduler (yield points in the instance lookup/creation code); every trace is validated by TLC (Trace_Inst.tla).",
+    note="Trusted: instance identity = serial number assigned in the generated constructors; weak references for 'dropped with the connection'; "
+         "scheduler/in-memory transport; TLC. Bounded: 2 connections x histories of length 6-7, 2-3 racing clients, preemption bound 2.",
+    technique="TLA+/PlusCal spec + TLC; TLC-generated histories replayed into a real daemon; schedule exploration; TLC trace validation (monitor)",
+    ref="6/C09"),
 }
 NOT_YET = {}
 ALL = ["C%02d" % i for i in range(1, 21)]
